@@ -2,7 +2,8 @@
 
 Implementation: DFA.successors / successor / predecessors / predecessor (explicit stack machine).
 Model: Model/Succ.v (specification model: filter over the dictionary-order enumeration), proved in
-Props/P_C14.v.  Observables compared exactly: the whole generated word list, the single-step
+Props/P_C14.v; additionally Model/SuccMachine.v (mirror of the stack machine, repaired row 8) is run on
+every case and must agree with both the implementation and the specification model.  Observables compared exactly: the whole generated word list, the single-step
 result, the exception kind."""
 from __future__ import annotations
 
@@ -187,8 +188,11 @@ def check_dfa(ctx, ddef, order, queries, tag):
     for (start, strict, lo, hi, reverse) in queries:
         t = [td, None if start is None else [sy.word(start)], strict, lo, None if hi is None else [hi]]
         reqs.append((14, 2 if reverse else 1, enc.tree(t)))
-    answers = ctx.driver.batch(reqs)
-    for (start, strict, lo, hi, reverse), req, ans in zip(queries, reqs, answers):
+    # the mirror stack machine (Model/SuccMachine.v) on the same inputs
+    mreqs = [(14, op + 2, t) for (_, op, t) in reqs]
+    both = ctx.driver.batch(reqs + mreqs)
+    answers, manswers = both[:len(reqs)], both[len(reqs):]
+    for (start, strict, lo, hi, reverse), req, ans, mans in zip(queries, reqs, answers, manswers):
         got_l, got_1 = impl_call(d, reverse, start, strict, key, lo, hi)
         want_l, want_1 = model_view(ans, sy)
         direction = "pred" if reverse else "succ"
@@ -211,6 +215,13 @@ def check_dfa(ctx, ddef, order, queries, tag):
             problems.append(f"{NAME[direction]}s: impl {got_l} model {want_l}")
         if got_1[:2] != want_1[:2]:
             problems.append(f"{NAME[direction]}: impl {got_1} model {want_1}")
+        mach = enc.dec_res(mans[0])
+        if mach[0] == "ok":
+            mach = ("ok", [sy.unword(w) for w in mach[1]])
+        if mach[:2] != got_l[:2]:
+            problems.append(f"mirror stack machine: impl {got_l} machine model {mach}")
+        if mach[:2] != want_l[:2]:
+            problems.append(f"machine model {mach} differs from specification model {want_l}")
         if problems:
             ctx.tally("disagreements_total")
             if ctx.tally_get("disagreements_total") > MAX_REPORT:
